@@ -9,7 +9,10 @@ written statement for statement (C10; reused as modelled leaves by C03).
 * Python *names* are variables (`Var`); `x = x.copy()` rebinds the name `x` to a fresh
   buffer, `diff = x` binds a second name to the same buffer.
 * One statement = one NumPy/ODL call: all sources are read, then the destination buffer is
-  overwritten (`set`), or a new object is created (`new`).  Element-wise functions, norms,
+  overwritten (`set`), or a new object is created (`new`).  Deviations from "statement for
+  statement": pure right-hand-side expressions are one `new`; the per-component loops of
+  `ProximalHuber`, `ProximalConvexConjL1L2`, `ProximalL1L2` (independent statements on component
+  `i` of a power-space element) are merged into one statement on the flattened element.  Element-wise functions, norms,
   the simplex projection, Lambert-W … are PARAMETERS (`Fns K`): the theorems hold for every
   choice, the driver instantiates them at `Float`.
 * `space.element()` without data is uninitialised memory: its content comes from an
@@ -35,6 +38,7 @@ def St.write {K} (s : St K) (b : Nat) (v : Vec K) : St K :=
 inductive Var
   | x | out | g | sig | lo | up
   | diff | tmp | denom | u | v | t1 | t2 | step | xnorm | mask | signx | offset | lambw | nrm
+  | xs | avrg | crit | idx | order | xarr
   deriving DecidableEq, Repr
 
 abbrev Env := Var → Nat
@@ -119,11 +123,22 @@ structure Fns (K : Type) where
   pwnorm : Vec K → Vec K
   /-- `for out_i, diff_i in zip(out, diff): diff_i.divide(denom, out=out_i)` -/
   pdiv : Vec K → Vec K → Vec K
-  /-- body of `proj_simplex`: `maximum(x - x_avrg[i], 0)` with the critical index of x -/
-  simplex : K → Vec K → Vec K
-  /-- `ProximalSimplex` on an array-weighted space: `maximum(x - tau[i] / w, 0)` with the
-  threshold found after sorting `w * x` (arguments: diameter, x, weights) -/
-  wsimplex : K → Vec K → Vec K → Vec K
+  /-- `ndarray.sort()` (ascending) -/
+  sortAsc : Vec K → Vec K
+  /-- `a[::-1]` -/
+  rev : Vec K → Vec K
+  /-- `(1 / j) * (np.cumsum(a) - d)` with `j = 1 … size` (first argument `d`) -/
+  cumAvg : K → Vec K → Vec K
+  /-- `np.argwhere(a >= 0).flatten().max()` (the index as a scalar) -/
+  lastNonneg : Vec K → K
+  /-- integer value of an index scalar -/
+  toIdx : K → Nat
+  /-- `np.argsort(-a)` (indices as scalars) -/
+  argsortDesc : Vec K → Vec K
+  /-- `a[order]` -/
+  take : Vec K → Vec K → Vec K
+  /-- `(np.cumsum(xo) - d) / np.cumsum(1 / wo)` (arguments `d`, `xo`, `wo`) -/
+  wtau : K → Vec K → Vec K → Vec K
   /-- base index of a flat index of a power-space element (`k % n`; identity otherwise) -/
   bidx : Nat → Nat
 
@@ -167,9 +182,22 @@ open Stmt Var
 
 def cst (c : K) : Vec K := fun _ => c
 
-/-- `proj_simplex(src, r, out)` -/
+/-- `proj_simplex(src, r, out)`, statement for statement. -/
 def simplexStmt (F : Fns K) (r : K) (src : Var) : Stmt K :=
-  .set out [src] (fun a => F.simplex r (a 0))
+  -- x_sor = x.asarray().flatten()        (`flatten` always copies)
+  .new xs [src] (fun a => a 0) ;;
+  -- x_sor.sort()                         (in place, on the copy)
+  .set xs [xs] (fun a => F.sortAsc (a 0)) ;;
+  -- x_sor = x_sor[::-1]                  (the name is rebound; the old object is dropped)
+  .new xs [xs] (fun a => F.rev (a 0)) ;;
+  -- j = np.arange(1, x.size + 1); x_avrg = (1 / j) * (np.cumsum(x_sor) - diameter)
+  .new avrg [xs] (fun a => F.cumAvg r (a 0)) ;;
+  -- crit = x_sor - x_avrg
+  .new crit [xs, avrg] (fun a i => a 0 i - a 1 i) ;;
+  -- i = np.argwhere(crit >= 0).flatten().max()
+  .new idx [crit] (fun a => cst (F.lastNonneg (a 0))) ;;
+  -- out[:] = np.maximum(x - x_avrg[i], 0)
+  .set out [src, avrg, idx] (fun a i => F.max (a 0 i - a 1 (F.toIdx (a 2 0))) 0)
 
 /-- `proj_l1(x, r, out)` -/
 def projL1 (F : Fns K) (r : K) : Stmt K :=
@@ -333,7 +361,22 @@ def prog (F : Fns K) (P : Par K) : ProxId → Stmt K
       .set out [tmp] (fun a => a 0)
   -- IndicatorSimplex.proximal : ProximalSimplex._call
   | .simplex false => simplexStmt F P.radius x
-  | .simplex true => .set out [x, sig] (fun a => F.wsimplex P.radius (a 0) (a 1))
+  | .simplex true =>
+      -- x_arr = x.asarray()                  (a VIEW of x)
+      .bind xarr x ;;
+      -- wx_sor = (weights * x_arr).ravel()
+      .new t1 [sig, xarr] (fun a i => a 0 i * a 1 i) ;;
+      -- order = np.argsort(-wx_sor)
+      .new order [t1] (fun a => F.argsortDesc (a 0)) ;;
+      -- tau = (np.cumsum(x_arr.ravel()[order]) - diameter) / np.cumsum(1 / np.ravel(weights)[order])
+      .new t2 [xarr, order, sig]
+        (fun a => F.wtau P.radius (F.take (a 0) (a 1)) (F.take (a 2) (a 1))) ;;
+      -- i = np.argwhere(wx_sor[order] - tau >= 0).flatten().max()
+      .new crit [t1, order, t2] (fun a i => F.take (a 0) (a 1) i - a 2 i) ;;
+      .new idx [crit] (fun a => cst (F.lastNonneg (a 0))) ;;
+      -- out[:] = np.maximum(x_arr - tau[i] / weights, 0)
+      .set out [xarr, t2, idx, sig]
+        (fun a i => F.max (a 0 i - a 1 (F.toIdx (a 2 0)) / a 3 i) 0)
   -- IndicatorSumConstraint.proximal : ProximalSum._call
   | .sumc false =>
       .new offset [x] (fun a => cst (F.invSize * (P.radius - F.sum (a 0)))) ;;
